@@ -14,6 +14,10 @@ def replay(inputs, label, strat, n, mode, b):
     return pl.replay_query(inputs, label, PROP, strat, n, mode, b)
 
 
+def validate(inputs, strat, n, mode, b):
+    return pl.validate_query(inputs, PROP, strat, n, mode, b)
+
+
 def _cfg_for(name):
     def cfg(tier):
         a = pl.ADAPTERS[name]
@@ -37,6 +41,7 @@ def harnesses():
         hs.append(Harness(f"query[{name}]", sym, replay, _cfg_for(name), pl.BASE_UNITS + a.units,
                           product_abstraction=a.product_abstraction, required_witnesses=("batch_of_two",),
                           timeout_ms=20000))
+        hs[-1].validate = validate
     return hs
 
 
